@@ -8,6 +8,7 @@ import (
 	"fmt"
 	"io"
 	"net/http"
+	"strings"
 	"testing"
 
 	connect "github.com/bufbuild/connect-go"
@@ -53,9 +54,15 @@ type c11Case struct {
 	RespH   http.Header `json:"resp_h"`
 	RespT   http.Header `json:"resp_t"`
 	ErrM    http.Header `json:"err_m"`
+	// ReadMax: the client has WithReadMaxBytes(ReadMax) and the handler's error
+	// text is longer than that (a read limit bounds messages, not errors).
+	ReadMax int `json:"read_max,omitempty"`
 }
 
 func (k c11Case) key() string {
+	if k.ReadMax > 0 {
+		return fmt.Sprintf("%s/%s/q%v/h%v/t%v/e%v/readmax%d", k.Cfg, k.Outcome, k.ReqH, k.RespH, k.RespT, k.ErrM, k.ReadMax)
+	}
 	return fmt.Sprintf("%s/%s/q%v/h%v/t%v/e%v", k.Cfg, k.Outcome, k.ReqH, k.RespH, k.RespT, k.ErrM)
 }
 
@@ -74,7 +81,11 @@ func c11Check(c *ev.Collector, k c11Case) {
 		mergeInto(s.ResponseHeader(), k.RespH)
 		mergeInto(s.ResponseTrailer(), k.RespT)
 		fail := func() error {
-			e := connect.NewError(connect.CodeFailedPrecondition, errors.New("nope"))
+			text := "nope"
+			if k.ReadMax > 0 {
+				text = strings.Repeat("nope ", k.ReadMax/2)
+			}
+			e := connect.NewError(connect.CodeFailedPrecondition, errors.New(text))
 			mergeInto(e.Meta(), k.ErrM)
 			return e
 		}
@@ -93,7 +104,11 @@ func c11Check(c *ev.Collector, k c11Case) {
 		}
 	}, k.Cfg.HandlerOptions()...)
 	tr := &memhttp.Transport{Handler: h, Proto: k.Cfg.HTTP, SyncCloseReq: true}
-	cl := NewClient(tr, k.Cfg)
+	var copts []connect.ClientOption
+	if k.ReadMax > 0 {
+		copts = append(copts, connect.WithReadMaxBytes(k.ReadMax))
+	}
+	cl := NewClient(tr, k.Cfg, copts...)
 	var res CallResult
 	g := Guarded(func() { res = RunCall(context.Background(), cl, k.Cfg.Kind, [][]byte{{7}}, k.ReqH) }, tr)
 	tags := append(k.Cfg.Tags(), "outcome="+k.Outcome)
@@ -183,23 +198,32 @@ func c11Cases(thorough bool) []c11Case {
 				}
 				for _, oc := range outcomes {
 					if thorough {
+						if p == PGRPC || (p == PConnect && kind == KUnary) {
+							out = append(out, c11Case{cfg, oc, qs[1], hs[1], ts[1], es[3], 128})
+						}
 						for _, q := range qs {
 							for _, h := range hs {
 								for _, t := range ts {
 									e := es[(len(q)+len(h)+len(t))%len(es)]
-									out = append(out, c11Case{cfg, oc, q, h, t, e})
+									out = append(out, c11Case{cfg, oc, q, h, t, e, 0})
 								}
 							}
 						}
 						continue
 					}
+					// a client with a read limit smaller than the handler's error, where the error does not
+					// travel in an envelope (end-of-stream envelopes and gRPC-Web trailer frames are subject
+					// to the limit on this tree: known finding of C09)
+					if p == PGRPC || (p == PConnect && kind == KUnary) {
+						out = append(out, c11Case{cfg, oc, qs[1], hs[1], ts[1], es[3], 128})
+					}
 					// quick: each carrier varied alone, then all together
 					for i := range qs {
-						out = append(out, c11Case{cfg, oc, qs[i], hs[0], ts[0], es[0]})
-						out = append(out, c11Case{cfg, oc, qs[0], hs[i], ts[0], es[0]})
-						out = append(out, c11Case{cfg, oc, qs[0], hs[0], ts[i], es[0]})
-						out = append(out, c11Case{cfg, oc, qs[0], hs[0], ts[0], es[i]})
-						out = append(out, c11Case{cfg, oc, qs[i], hs[i], ts[i], es[i]})
+						out = append(out, c11Case{cfg, oc, qs[i], hs[0], ts[0], es[0], 0})
+						out = append(out, c11Case{cfg, oc, qs[0], hs[i], ts[0], es[0], 0})
+						out = append(out, c11Case{cfg, oc, qs[0], hs[0], ts[i], es[0], 0})
+						out = append(out, c11Case{cfg, oc, qs[0], hs[0], ts[0], es[i], 0})
+						out = append(out, c11Case{cfg, oc, qs[i], hs[i], ts[i], es[i], 0})
 					}
 				}
 			}
